@@ -8,6 +8,7 @@ import (
 	"reflect"
 	"strconv"
 
+	"github.com/samsarahq/thunder/batch"
 	"github.com/samsarahq/thunder/graphql"
 	"github.com/samsarahq/thunder/internal/zzverif/nondet"
 )
@@ -202,9 +203,48 @@ func VerifC14BuilderConforms() {
 	obj.FieldFunc("double", func(t c14Thing) int64 { return t.Num * 2 })
 	obj.FieldFunc("maybe", func(t c14Thing) (*int64, error) { return t.PtrNum, nil })
 	obj.FieldFunc("must", func(ctx context.Context, t c14Thing) (*c14Inner, error) { return &t.Inner, nil }, NonNullable)
+	// batch field funcs: a struct by value, a pointer and a list per source; a source
+	// may be left out of the returned map (then its value is null / zero)
+	leaveOut := nondet.Choice("batchLeavesOut", 2) == 1
+	obj.BatchFieldFunc("bInner", func(ctx context.Context, in map[batch.Index]c14Thing) (map[batch.Index]c14Inner, error) {
+		out := map[batch.Index]c14Inner{}
+		for i, t := range in {
+			if !leaveOut {
+				out[i] = c14Inner{N: t.Num}
+			}
+		}
+		return out, nil
+	})
+	obj.BatchFieldFunc("bPtr", func(ctx context.Context, in map[batch.Index]c14Thing) (map[batch.Index]*c14Inner, error) {
+		out := map[batch.Index]*c14Inner{}
+		for i, t := range in {
+			if !leaveOut {
+				out[i] = &c14Inner{N: t.Num}
+			}
+		}
+		return out, nil
+	})
+	obj.BatchFieldFunc("bList", func(ctx context.Context, in map[batch.Index]c14Thing) (map[batch.Index][]int64, error) {
+		out := map[batch.Index][]int64{}
+		for i, t := range in {
+			if !leaveOut {
+				out[i] = []int64{t.Num}
+			}
+		}
+		return out, nil
+	})
+	obj.BatchFieldFunc("bNum", func(ctx context.Context, in map[batch.Index]c14Thing) (map[batch.Index]int64, error) {
+		out := map[batch.Index]int64{}
+		for i, t := range in {
+			if !leaveOut {
+				out[i] = t.Num
+			}
+		}
+		return out, nil
+	})
 	schema := s.MustBuild()
 
-	body := "{ iD num ptrNum str flag color inner { n } ptrIn { n } list ptrLst { n } double maybe must { n } }"
+	body := "{ iD num ptrNum str flag color inner { n } ptrIn { n } list ptrLst { n } double maybe must { n } bInner { n } bPtr { n } bList bNum }"
 	text := "{ thing " + body + " thingPtr " + body + " pet { __typename ... on C14Cat { name } ... on C14Dog { age } } }"
 	query, err := graphql.Parse(text, nil)
 	nondet.Assert(err == nil, "parses")
